@@ -133,6 +133,11 @@ def run(ctx, report):
     from . import c05_layout
     c05_layout.run(ctx, report)
 
+    # clause 1 (necessary part): the duplicate memory always describes the immediately preceding word
+    report.section("doubling memory", doubling_memory, ctx, report, "1")
+    from . import c05_doubling
+    report.section("doubling automaton", c05_doubling.run, ctx, report, "1")
+
     report.not_decided.append(
         "decoder behaviour over command sequences: doubling memory, extended-character back-space, "
         "row adjacency vs repositioning, italic extent (state-machine runs, not decidable from shape)")
@@ -288,3 +293,57 @@ def _effect(body):
     if "interpret_command" in calls:
         return "delegate_to_buffer"
     return "other:" + ",".join(calls)
+
+
+def doubling_memory(ctx, report, clause):
+    """A doubled code counts once - and ONLY a code equal to the word sent immediately before it is
+    dropped.  Necessary structural part: every attribute the duplicate test compares the word
+    with is assigned on every path through the routine that falls through to 'not a duplicate',
+    and cleared on every path that reports a duplicate; otherwise the memory can survive
+    intervening words and a later, separate occurrence of the same code is swallowed.
+    (The sequence behaviour itself is not decided.)"""
+    from ..engines import pathrules as PR
+    fn = ctx.index.get_function("pycaption/scc/__init__.py", "SCCReader._handle_double_command")
+    report.covered(fn)
+    word = fn.params[1]
+    mems = set()
+    for n in walk_no_nested(fn.node):
+        if isinstance(n, ast.Compare) and len(n.ops) == 1 and isinstance(n.ops[0], (ast.Eq, ast.NotEq, ast.In)):
+            l, r = n.left, n.comparators[0]
+            for a, b in ((l, r), (r, l)):
+                if isinstance(a, ast.Name) and a.id == word and isinstance(b, ast.Attribute) \
+                        and isinstance(b.value, ast.Name) and b.value.id == "self":
+                    mems.add(b.attr)
+    if not mems:
+        raise AnalysisError("_handle_double_command: no comparison of the word with remembered state found")
+
+    def classify(n):
+        if isinstance(n, (ast.Assign, ast.AugAssign)):
+            out = []
+            tg = n.targets if isinstance(n, ast.Assign) else [n.target]
+            for t in tg:
+                if isinstance(t, ast.Attribute) and isinstance(t.value, ast.Name) and t.value.id == "self" and t.attr in mems:
+                    return f"SET:{t.attr}"
+        return None
+    paths = PR.paths_of_block(fn.node.body, classify)
+    ret_true = {n.lineno for n in walk_no_nested(fn.node) if isinstance(n, ast.Return)
+                and isinstance(n.value, ast.Constant) and n.value.value is True}
+    bad = []
+    for ev, end in paths:
+        flat = PR.flat(ev)
+        if any(isinstance(e, tuple) and e[0] == "return" and e[1] in ret_true for e in flat):
+            continue        # the word is dropped: the automaton check judges what the memory may hold then
+        fl = [e for e in flat if isinstance(e, str)]
+        for m in sorted(mems):
+            if f"SET:{m}" not in fl:
+                bad.append({"memory": f"self.{m}", "path_events": [str(e) for e in PR.flat(ev)][-4:], "ends": end})
+    report.check(not bad, "R-MEMORY-FRESH", fn,
+                 "the duplicate memory is re-assigned on every path that accepts the word (it always describes the previous word)",
+                 {"memories": sorted(mems), "paths": len(paths), "paths_leaving_memory_stale": bad[:3]}, clause)
+    # every word passes through the routine: _translate_word calls it first, unconditionally
+    tw = ctx.index.get_function("pycaption/scc/__init__.py", "SCCReader._translate_word")
+    report.covered(tw)
+    first = next((st for st in tw.node.body if not (isinstance(st, ast.Expr) and isinstance(st.value, ast.Constant))), None)
+    ok = first is not None and isinstance(first, ast.If) and "_handle_double_command" in src(first.test)
+    report.check(ok, "R-MEMORY-FRESH", tw, "every code word is shown to the duplicate filter before anything else",
+                 short(first) if first is not None else None, clause)
